@@ -42,17 +42,15 @@
   (and (or (= K 0) (= (kindOf e) K)) (vbool (cbret (selArg h K e) VNil))))
 (define-fun visited ((K Int) (e Val)) Bool (or (= K 0) (= (kindOf e) K)))
 (declare-fun cntSel (Heap (Array Int Val) Int Int) Int)
-(assert (forall ((h Heap) (A (Array Int Val)) (K Int) (i Int)) (! (=> (<= i 0) (= (cntSel h A K i) 0)) :pattern ((cntSel h A K i)))))
-(assert (forall ((h Heap) (A (Array Int Val)) (K Int) (i Int)) (!
-  (=> (> i 0) (= (cntSel h A K i) (+ (cntSel h A K (- i 1)) (ite (selected h K (select A (- i 1))) 1 0))))
-  :pattern ((cntSel h A K i)))))
+(assert (forall ((h Heap) (A (Array Int Val)) (K Int) (i Int)) (! (=> (gh h) (=> (<= i 0) (= (cntSel h A K i) 0))) :pattern ((cntSel h A K i)))))
+(assert (forall ((h Heap) (A (Array Int Val)) (K Int) (i Int)) (! (=> (gh h) (=> (> i 0) (= (cntSel h A K i) (+ (cntSel h A K (- i 1)) (ite (selected h K (select A (- i 1))) 1 0))))) :pattern ((cntSel h A K i)))))
 ; number of visited elements for mode K (all of them for K = 0)
 (declare-fun cntV ((Array Int Val) Int Int) Int)
 (assert (forall ((A (Array Int Val)) (K Int) (i Int)) (! (= (cntV A K i) (ite (= K 0) (ite (<= i 0) 0 i) (cntK A K i))) :pattern ((cntV A K i)))))
 
 ; position alias used in contracts (keeps the unfolding chain of cntSel from re-triggering invariants)
 (declare-fun selPos (Heap (Array Int Val) Int Int) Int)
-(assert (forall ((h Heap) (A (Array Int Val)) (K Int) (i Int)) (! (= (selPos h A K i) (cntSel h A K i)) :pattern ((selPos h A K i)))))
+(assert (forall ((h Heap) (A (Array Int Val)) (K Int) (i Int)) (! (=> (gh h) (= (selPos h A K i) (cntSel h A K i))) :pattern ((selPos h A K i)))))
 
 ; ---------------------------------------------------------------------------
 ; C18: reference folds (left folds in index order), one-step unfoldings.
